@@ -108,17 +108,23 @@ func runC20(r *Run) {
 	type opening struct {
 		content string
 		s       tlsSetting
+		s2      *tlsSetting // a second, different setting on the same CA file, followed by a rotation of the file
 	}
 	var openings []opening
 	for _, c0 := range []string{"", "junk", "CA-A"} {
 		for _, sk := range []string{"u", "b1", "b0", "s:true", "s:junk"} {
-			openings = append(openings, opening{c0, tlsSetting{Kind: "file", File: "f1", Skip: sk, Interval: interval}})
+			openings = append(openings, opening{c0, tlsSetting{Kind: "file", File: "f1", Skip: sk, Interval: interval}, nil})
 		}
 	}
 	for _, ca := range []string{"CA-A", "junk"} {
 		for _, sk := range []string{"b1", "s:1", "u"} {
-			openings = append(openings, opening{"CA-A", tlsSetting{Kind: "inline", CA: ca, File: "f1", Skip: sk, Interval: interval}})
+			openings = append(openings, opening{"CA-A", tlsSetting{Kind: "inline", CA: ca, File: "f1", Skip: sk, Interval: interval}, nil})
 		}
+	}
+	for _, second := range []tlsSetting{{Kind: "file", File: "f1", Skip: "u", Interval: interval + 10*time.Millisecond}, {Kind: "file", File: "f1", Skip: "b1", Interval: interval},
+		{Kind: "file", File: "f1", Skip: "u", Interval: 0}} {
+		sec := second
+		openings = append(openings, opening{"CA-A", tlsSetting{Kind: "file", File: "f1", Skip: "u", Interval: interval}, &sec})
 	}
 	nScen := scale(r, 6, 300) + len(openings)
 	for sc := 0; sc < nScen && r.unknownViolations() == 0; sc++ {
@@ -189,13 +195,26 @@ func runC20(r *Run) {
 			nEv = 3
 		}
 		for e := 0; e < nEv; e++ {
-			switch k := r.Rng.Intn(10); {
+			k := r.Rng.Intn(10)
+			forcedRotation := false
+			if sc < len(openings) && openings[sc].s2 != nil {
+				switch e {
+				case 1:
+					k = 0 // the second setting
+				case 2:
+					k, forcedRotation = 5, true // the file both name is rotated
+				}
+			}
+			switch {
 			case k < 5 || len(ls) == 0:
 				s := tlsSetting{Kind: pick(r.Rng, []string{"none", "inline", "file", "file", "file"}), CA: pick(r.Rng, []string{"CA-A", "CA-B", "junk"}),
 					File: pick(r.Rng, []string{"f1", "f1", "f2"}), Skip: pick(r.Rng, []string{"u", "u", "b1", "b0", "s:true", "s:false", "s:junk", "s:1"}),
 					Interval: pick(r.Rng, []time.Duration{interval, interval, 0, interval + 10*time.Millisecond})}
 				if sc < len(openings) && e == 0 {
 					s = openings[sc].s
+				}
+				if sc < len(openings) && e == 1 && openings[sc].s2 != nil {
+					s = *openings[sc].s2
 				}
 				oc := &oidcv1.OIDCConfig{}
 				switch s.Kind {
@@ -286,6 +305,9 @@ func runC20(r *Run) {
 				history = append(history, map[string]any{"load": s})
 			case k < 8:
 				f, name := pick(r.Rng, []string{"f1", "f2"}), pick(r.Rng, []string{"CA-A", "CA-B", "CA-B", "junk", ""})
+				if forcedRotation {
+					f, name = "f1", "CA-B"
+				}
 				write(f, name)
 				history = append(history, map[string]any{"rewrite": f, "content": name})
 				settle()
